@@ -11,6 +11,7 @@ mod stores;
 mod solverfuzz;
 mod ddfuzz;
 mod longarc;
+mod viz;
 
 fn main() {
     let args: Vec<String> = std::env::args().collect();
@@ -29,6 +30,7 @@ fn main() {
         "longarc_witness" => longarc::witness(&rest),
         "longarc_fuzz" => longarc::fuzz(&rest),
         "dd_fuzz" => ddfuzz::fuzz(&rest),
+        "viz_fuzz" => viz::fuzz(&rest),
         "solver_fuzz" => solverfuzz::fuzz(&rest),
         "cache_fuzz" => stores::cache_fuzz(&rest),
         "dominance_fuzz" => stores::dominance_fuzz(&rest),
